@@ -61,20 +61,26 @@ def all_cases(b):
             yield ("Queen", "White" if cap[1] == "Black" else "Black", (3, 3), cap, sq)
 
 
-def inputs(ix, case, available=None):
+def inputs(ix, case, available=None, b=None):
     mk, mc, ms, cap, cd = case
-    inp = {"*new_move.piece": _kind(ix, mk, mc), "*new_move.start": _sq(*ms), "*new_move.dest": _sq(*cd),
-           "*new_move.is_castles": ("const", 0, "bool"),
-           "*new_move.captured_piece": cases.option("Some", [_kind(ix, *cap)]) if cap else cases.option("None")}
+    # the move record: `new_move: &mut Ply` in the reference tree; a refactoring may pass and return it by value
+    pre = "*new_move."
+    if b is not None:
+        for l in range(1, b.arg_count + 1):
+            if b.locals[l]["ty"].replace("&mut ", "").lstrip("&") == "board::ply::Ply":
+                pre = ("*" if b.locals[l]["ty"].startswith("&") else "") + b.local_name(l) + "."
+    inp = {pre + "piece": _kind(ix, mk, mc), pre + "start": _sq(*ms), pre + "dest": _sq(*cd),
+           pre + "is_castles": ("const", 0, "bool"),
+           pre + "captured_piece": cases.option("Some", [_kind(ix, *cap)]) if cap else cases.option("None")}
     if available is not None:
         for f in RIGHTS:
-            inp["*new_move.castling_rights." + f] = cases.enum_val(ix, "board::ply::castling::CastlingStatus", "Available" if f in available else "Unavailable")
+            inp[pre + "castling_rights." + f] = cases.enum_val(ix, "board::ply::castling::CastlingStatus", "Available" if f in available else "Unavailable")
     return inp
 
 
 def walk(ix, b, case, available=None):
     """[(rights set Unavailable, [toggled kinds], other stores into the rights)] per returning path, and undecided?"""
-    run = cases.run(ix, b, inputs(ix, case, available))
+    run = cases.run(ix, b, inputs(ix, case, available, b))
     out = []
     for p in run.paths:
         if p.end != "return":
